@@ -29,6 +29,10 @@ pub struct Case {
     pub task: u8,
     pub mask_input: bool,
     pub separator: Option<String>,
+    /// conditional generation: the target side uses a tokenizer of its own whose special tokens
+    /// are listed in reverse order (so its numeric pad id differs from the input side's)
+    #[serde(default)]
+    pub target_reversed: bool,
 }
 
 pub struct C17;
@@ -43,8 +47,8 @@ impl Prop for C17 {
     fn fuzz_decode(bytes: &[u8]) -> Option<Case> {
         crate::fuzzdec::c17(bytes)
     }
-    const RULE: &'static str = "batches of 1-6 Unicode texts (fragment pools incl. special-token spellings, multi-code-point clusters, empty strings) x byte tokenizer configs (byte/code-point groups, graphemes, pad_to_multiple_of, mean/sum) x special configs with prefix/suffix x ignore_special_tokens x train task (whitespace correction, generation with/without input masking and separator, conditional generation, classification). Oracle: exact expected group structure per tokenization and sum of group lengths = #ids; sparse COO matrix: one entry per token, indices inside the declared size, each (batch, token) once, token->group assignment equals the grouping, per-group weights sum to 1 (mean) / are all 1 (sum), padding mask; tensorised id/label matrices = item values followed only by padding, true lengths, width = max length. Non-trivial: batch of >= 2 items of different lengths with a prefix or suffix and a multi-code-point cluster. Distinct = distinct serialised case.";
-    const ESSENTIAL: &'static [&'static str] = &["bytes_groups", "code_point_groups", "mean", "sum", "special_in_text", "prefix_suffix", "multi_cp_cluster", "empty_text", "task_ws", "task_gen", "task_cond", "task_cls", "different_lengths"];
+    const RULE: &'static str = "batches of 1-6 Unicode texts (fragment pools incl. special-token spellings, multi-code-point clusters, empty strings) x byte tokenizer configs (byte/code-point groups, graphemes, pad_to_multiple_of, mean/sum) x special configs with prefix/suffix x ignore_special_tokens x train task (whitespace correction, generation with/without input masking and separator, conditional generation with the same or a differently configured target tokenizer (special tokens in reverse order, hence another pad id), classification). Oracle: exact expected group structure per tokenization and sum of group lengths = #ids; sparse COO matrix: one entry per token, indices inside the declared size, each (batch, token) once, token->group assignment equals the grouping, per-group weights sum to 1 (mean) / are all 1 (sum), padding mask; tensorised id/label matrices = item values followed only by padding, true lengths, width = max length. Non-trivial: batch of >= 2 items of different lengths with a prefix or suffix and a multi-code-point cluster. Distinct = distinct serialised case.";
+    const ESSENTIAL: &'static [&'static str] = &["bytes_groups", "code_point_groups", "mean", "sum", "special_in_text", "prefix_suffix", "multi_cp_cluster", "empty_text", "task_ws", "task_gen", "task_cond", "task_cls", "different_lengths", "target_tokenizer_differs"];
 
     fn budget(tier: Tier) -> Budget {
         match tier {
@@ -65,8 +69,9 @@ impl Prop for C17 {
                     0u8..4,
                     any::<bool>(),
                     prop_oneof![Just(None), select(vec![" => ", "\n", "<sep>", ""]).prop_map(|s| Some(s.to_string()))],
+                    any::<bool>(),
                 )
-                    .prop_map(move |(items, kind, ignore_special, task, mask_input, separator)| Case {
+                    .prop_map(move |(items, kind, ignore_special, task, mask_input, separator, target_reversed)| Case {
                         items,
                         kind,
                         special: special.clone(),
@@ -74,6 +79,7 @@ impl Prop for C17 {
                         task,
                         mask_input,
                         separator,
+                        target_reversed,
                     })
             })
             .boxed()
@@ -230,10 +236,23 @@ impl Prop for C17 {
         }
 
         // ---- (C) tensorisation of a batch of train items
+        let mut special_t = c.special.clone();
+        if c.target_reversed && c.task == 2 {
+            special_t.tokens.reverse();
+            out.label("target_tokenizer_differs");
+        }
+        let cfg_t = by_kind_cfg(&c.kind, &special_t);
+        let pad_t = match tokenizer(cfg_t.clone()).and_then(|t| t.get_vocab()).map_err(|e| e.to_string()).and_then(|v| expect(&c.kind, &special_t, &v)) {
+            Ok(e) => (256 + e.special.iter().position(|t| *t == special_t.pad).unwrap()) as u32,
+            Err(e) => {
+                out.fail(format!("target tokenizer: {e}"));
+                return out;
+            }
+        };
         let task_cfg = match c.task {
             0 => TrainTaskConfig::WhitespaceCorrection(*graphemes, cfg.clone()),
             1 => TrainTaskConfig::Generation(c.mask_input, cfg.clone(), c.ignore_special, c.separator.clone()),
-            2 => TrainTaskConfig::ConditionalGeneration(cfg.clone(), c.ignore_special, cfg.clone(), !c.ignore_special),
+            2 => TrainTaskConfig::ConditionalGeneration(cfg.clone(), c.ignore_special, cfg_t.clone(), !c.ignore_special),
             _ => TrainTaskConfig::Classification(cfg.clone(), c.ignore_special, CLASSES.iter().map(|s| s.to_string()).collect()),
         };
         out.label(match c.task {
@@ -312,7 +331,7 @@ impl Prop for C17 {
                     labels.push(l);
                 }
                 TrainTaskInput::ConditionalGeneration { token_ids, pad_token_id, target_token_ids, target_pad_token_id, labels: l } => {
-                    ensure!(out, *pad_token_id == pad && *target_pad_token_id == pad, "pad id");
+                    ensure!(out, *pad_token_id == pad && *target_pad_token_id == pad_t, "pad ids ({pad_token_id}, {target_pad_token_id}) != ({pad}, {pad_t})");
                     ids.push(token_ids);
                     tids.push(target_token_ids);
                     labels.push(l);
@@ -326,7 +345,7 @@ impl Prop for C17 {
         match c.task {
             3 => ensure!(out, tv.label == label1, "classification labels {:?} != {label1:?}", tv.label),
             2 => {
-                if let Err(e) = chk_u32("target_token_ids", &tv.target_token_ids, &tv.target_lengths, tids, pad).and_then(|_| chk_i32("labels", &tv.labels, labels)) {
+                if let Err(e) = chk_u32("target_token_ids", &tv.target_token_ids, &tv.target_lengths, tids, pad_t).and_then(|_| chk_i32("labels", &tv.labels, labels)) {
                     out.fail(e);
                     return out;
                 }
